@@ -93,51 +93,62 @@ def removeAt (s : ASet) (d k : Nat) : ASet :=
 def setSl (es : List Entry) (k : Nat) (sl : Int) : List Entry :=
   es.modify k (fun e => { e with sl := sl })
 
+/-- not alive -> alive: append an entry with sorting latency 0 -/
+def join (s : ASet) (d : Nat) : ASet :=
+  { s with idx := upd s.idx d (Slot.at s.entries.length), entries := s.entries ++ [⟨d, 0⟩] }
+
+/-- `minLatency.dialer = nil; minLatency.sortingLatency = time.Hour` -/
+def resetBest (s : ASet) : ASet := { s with minD := none, minL := hour }
+
+/-- `dialerToLatency[d] = raw`, and the entry's sorting latency when `d` is alive -/
+def record (s : ASet) (d : Nat) (raw : Int) : ASet :=
+  match s.idx d with
+  | .at k =>
+    if s.entries.length ≤ k then { s with lat := upd s.lat d (some raw), panicked := true }
+    else { s with lat := upd s.lat d (some raw), entries := setSl s.entries k (raw + s.offs d) }
+  | _ => { s with lat := upd s.lat d (some raw) }
+
 /-- first half of `NotifyLatencyChange`: join / swap-remove (+ the "best died without a
 measurement" recomputation). -/
 def phase1 (s : ASet) (d : Nat) (alive : Bool) (snap : Option Int) : ASet × List Bool :=
   if alive then
     match s.idx d with
     | .at _ => (s, [])
-    | _ => ({ s with idx := upd s.idx d (Slot.at s.entries.length),
-                     entries := s.entries ++ [⟨d, 0⟩] }, [])
+    | _ => (join s d, [])
   else
     match s.idx d with
     | .at k =>
       let removedBest := s.policy.isMin && snap.isNone && (s.minD == some d)
       let s1 := removeAt s d k
       if removedBest then
-        let s2 := calcMin { s1 with minD := none, minL := hour }
+        let s2 := calcMin (resetBest s1)
         (s2, if s2.minD.isNone then [false] else [])
       else (s1, [])
     | _ => (s, [])
+
+/-- the decision after a measurement was recorded (`s` = state with the measurement stored,
+`bakL` = cached best latency before) -/
+def decide2 (s : ASet) (d : Nat) (alive : Bool) (sl bakL : Int) : ASet :=
+  if alive && gate s.tol sl s.minL then { s with minL := sl, minD := some d }
+  else if s.minD = some d then
+    let s3 := { s with minL := sl }
+    if !alive || decide (sl > bakL) then
+      calcMin (if alive then s3 else { s3 with minD := none })
+    else s3
+  else s
+
+/-- the `aliveChangeCallback` calls of the measured branch -/
+def cbsOf (bakD newD : Option Nat) : List Bool :=
+  if newD = bakD then []
+  else if newD.isSome then (if bakD.isNone then [true] else [])
+  else [false]
 
 /-- second half: `if hasLatency {…} else if alive && minPolicy && minLatency.dialer == nil {…}` -/
 def phase2 (s : ASet) (d : Nat) (alive : Bool) (snap : Option Int) : ASet × List Bool :=
   match snap with
   | some raw =>
-    let bakD := s.minD
-    let bakL := s.minL
-    let sl := raw + s.offs d
-    let s1 : ASet :=
-      match s.idx d with
-      | .at k =>
-        if s.entries.length ≤ k then { s with lat := upd s.lat d (some raw), panicked := true }
-        else { s with lat := upd s.lat d (some raw), entries := setSl s.entries k sl }
-      | _ => { s with lat := upd s.lat d (some raw) }
-    let s2 : ASet :=
-      if alive && gate s1.tol sl s1.minL then { s1 with minL := sl, minD := some d }
-      else if s1.minD = some d then
-        let s3 := { s1 with minL := sl }
-        if !alive || decide (sl > bakL) then
-          calcMin (if alive then s3 else { s3 with minD := none })
-        else s3
-      else s1
-    let cbs : List Bool :=
-      if s2.minD = bakD then []
-      else if s2.minD.isSome then (if bakD.isNone then [true] else [])
-      else [false]
-    (s2, cbs)
+    let s2 := decide2 (record s d raw) d alive (raw + s.offs d) s.minL
+    (s2, cbsOf s.minD s2.minD)
   | none =>
     if alive && s.policy.isMin && s.minD.isNone then ({ s with minD := some d }, [true])
     else (s, [])
